@@ -602,6 +602,7 @@ func main() {
 		apiFlow(r, i)
 	}
 	seqFlows(r)
+	treeFlows(r)
 }
 
 // ---------------------------------------------------------------- sequences of adds on the same pages
@@ -788,5 +789,222 @@ func seqFlows(r *vh.Run) {
 			}
 			seqFlow(r, spec, pat, ks)
 		}
+	}
+}
+
+// ---------------------------------------------------------------- page trees x partial selections
+
+func subsetMask(n, bits int) []bool {
+	m := make([]bool, n)
+	for i := range m {
+		m[i] = bits>>i&1 == 1
+	}
+	return m
+}
+
+func anyTrue(m []bool) bool {
+	for _, b := range m {
+		if b {
+			return true
+		}
+	}
+	return false
+}
+
+// treeFlow: one page tree, one add selection, several removal selections.
+// Every page has its own /Resources and a /Contents entry (the two known removal defects stay out).
+func treeFlow(r *vh.Run, spec docSpec, pdf []byte, orig []pageObs, sela []bool, selrs [][]bool) {
+	n := len(orig)
+	onTop := r.Rand.Intn(2) == 0
+	in := map[string]any{"tree": spec.Tree.shape(), "pages": n, "onTop": onTop, "add_pages": selStrings(sela), "doc": spec}
+	defer recoverTo(r, "tree", in)
+	r.Count(fmt.Sprintf("tree:pages=%d,depth=%d", n, spec.Tree.depth()))
+	wm, err := newWM(r, "text", onTop, genDesc(r, "text"))
+	if err != nil {
+		panic(err)
+	}
+	var added bytes.Buffer
+	if err := api.AddWatermarks(bytes.NewReader(pdf), &added, selStrings(sela), wm, newConf()); err != nil {
+		r.OracleFail("add-error", in, err.Error())
+		return
+	}
+	obsA, err := observe(added.Bytes())
+	if err != nil || len(obsA) != n {
+		r.OracleFail("add-output-unreadable", in, fmt.Sprint(err))
+		return
+	}
+	has1, err := hasDoc(r, added.Bytes(), in)
+	if err != nil {
+		r.OracleFail("detect-error", in, err.Error())
+		return
+	}
+	flags1, err := pageFlags(added.Bytes())
+	if err != nil {
+		r.OracleFail("detect-page-error", in, err.Error())
+		return
+	}
+	pagesEnc := func(obs []pageObs) string {
+		a := make([]string, len(obs))
+		for i, p := range obs {
+			res := "0"
+			if p.OwnRes {
+				res = "1"
+			}
+			a[i] = res + "|" + encContents(p.Kind, p.Streams)
+		}
+		return strings.Join(a, ";")
+	}
+	// K: the tree walk of the model on the pages as they are after the add, in the tree's shape
+	r.Case("treedetect", []string{"true", spec.Tree.shape(), pagesEnc(obsA)},
+		fmt.Sprintf("walk=%s|flat=%s|order=%s", vh.Bool(has1), vh.Bool(strings.Contains(flags1, "1")), flags1))
+	// O: detection = the selection
+	if !has1 {
+		r.OracleFail("detect-misses-watermark-in-page-tree", in, "HasWatermarks=false, per-page detection "+flags1)
+	} else {
+		r.OracleOK()
+	}
+	if flags1 != maskStr(sela) {
+		r.OracleFail("page-detection-differs-from-selection", in, flags1+" vs "+maskStr(sela))
+	} else {
+		r.OracleOK()
+	}
+	for _, selr := range selrs {
+		in2 := map[string]any{"tree": spec.Tree.shape(), "pages": n, "onTop": onTop, "add_pages": selStrings(sela), "remove_pages": selStrings(selr), "doc": spec}
+		docArgs := []string{vh.Bool(onTop), "false", maskStr(sela), maskStr(selr), pagesEnc(orig)}
+		head := fmt.Sprintf("det0=false|det1=%s:%s|rm=", vh.Bool(has1), flags1)
+		want := make([]bool, n) // still watermarked after the removal
+		both := false
+		for i := range want {
+			want[i] = sela[i] && !selr[i]
+			both = both || (sela[i] && selr[i])
+		}
+		var out bytes.Buffer
+		err := api.RemoveWatermarks(bytes.NewReader(added.Bytes()), &out, selStrings(selr), newConf())
+		if err != nil {
+			cl := errClass(err)
+			r.Case("doc", docArgs, head+"err:"+cl)
+			if both || cl != "nowatermark" {
+				r.OracleFail("remove-error", in2, err.Error())
+			} else {
+				r.OracleOK()
+			}
+			continue
+		}
+		obsR, err := observe(out.Bytes())
+		if err != nil || len(obsR) != n {
+			r.OracleFail("remove-output-unreadable", in2, fmt.Sprint(err))
+			continue
+		}
+		has2, err := hasDoc(r, out.Bytes(), in2)
+		flags2, err2 := pageFlags(out.Bytes())
+		if err != nil || err2 != nil {
+			r.OracleFail("detect-error", in2, fmt.Sprint(err, err2))
+			continue
+		}
+		r.Case("doc", docArgs, head+fmt.Sprintf("ok:%s:%s:%s", vh.Bool(has2), flags2, resFlags(obsR)))
+		r.Case("treedetect", []string{"true", spec.Tree.shape(), pagesEnc(obsR)},
+			fmt.Sprintf("walk=%s|flat=%s|order=%s", vh.Bool(has2), vh.Bool(strings.Contains(flags2, "1")), flags2))
+		switch {
+		case has2 != anyTrue(want):
+			r.OracleFail("detect-wrong-after-partial-removal", in2, fmt.Sprintf("HasWatermarks=%v, still watermarked %s", has2, maskStr(want)))
+		case flags2 != maskStr(want):
+			r.OracleFail("partial-removal-wrong-pages", in2, flags2+" vs "+maskStr(want))
+		default:
+			r.OracleOK()
+		}
+		for i, p := range orig {
+			o, a, n2 := joinStreams(p.Streams), joinStreams(obsA[i].Streams), joinStreams(obsR[i].Streams)
+			switch {
+			case want[i] && (!bytes.Equal(a, n2) || len(obsA[i].Streams) != len(obsR[i].Streams)):
+				r.OracleFail("removal-touches-unselected-watermarked-page", in2, fmt.Sprintf("page %d", i+1))
+			case !want[i] && (bytes.Contains(n2, []byte(markerStr)) || !equivalent(o, n2)):
+				r.OracleFail("content-not-restored", in2, fmt.Sprintf("page %d: %q -> %q", i+1, o, n2))
+			case !sela[i] && !bytes.Equal(o, n2):
+				r.OracleFail("remove-touches-unwatermarked-page", in2, fmt.Sprintf("page %d", i+1))
+			case !want[i] && (!sameSet(p.GS, obsR[i].GS) || !sameSet(p.XO, obsR[i].XO)):
+				r.OracleFail("resources-not-restored", in2, fmt.Sprintf("page %d", i+1))
+			default:
+				r.OracleOK()
+			}
+		}
+	}
+}
+
+func treeFlows(r *vh.Run) {
+	run := func(n int, tree *treeNode, subsets []int) {
+		var spec docSpec
+		for i := 0; i < n; i++ {
+			k := 1 + r.Rand.Intn(3)
+			var ss [][]byte
+			for j := 0; j < k; j++ {
+				ss = append(ss, genContent(r.Rand, 3))
+			}
+			kind := 2
+			if k == 1 && r.Rand.Intn(2) == 0 {
+				kind = 1
+			}
+			spec.Pages = append(spec.Pages, pageSpec{Kind: kind, Streams: ss})
+		}
+		spec.Tree = tree
+		pdf := buildPDF(spec)
+		orig, err := observe(pdf)
+		if err != nil || len(orig) != n {
+			panic(fmt.Sprintf("generated document unreadable: tree %s: %v", tree.shape(), err))
+		}
+		if h, err := hasDoc(r, pdf, map[string]any{"tree": tree.shape()}); err != nil || h {
+			r.OracleFail("detect-on-clean-document", map[string]any{"tree": tree.shape(), "doc": spec}, fmt.Sprint(h, err))
+		}
+		all := subsetMask(n, 1<<n-1)
+		for _, bits := range subsets {
+			sela := subsetMask(n, bits)
+			selrs := [][]bool{all, subsetMask(n, 1+r.Rand.Intn(1<<n-1))}
+			if r.Thorough() {
+				selrs = append(selrs, sela, subsetMask(n, 1+r.Rand.Intn(1<<n-1)))
+			}
+			treeFlow(r, spec, pdf, orig, sela, selrs)
+		}
+	}
+	allSubsets := func(n int) []int {
+		var s []int
+		for b := 1; b < 1<<n; b++ {
+			s = append(s, b)
+		}
+		return s
+	}
+	for n := 1; n <= 5; n++ {
+		trees := fixedTrees(n)
+		extra := r.Pick(1, 4)
+		for i := 0; i < extra; i++ {
+			trees = append(trees, genTree(r.Rand, 0, n, 2+r.Rand.Intn(3)))
+		}
+		if !r.Thorough() && n >= 4 {
+			// quick tier: every subset on the merge-like trees, a sample on the others
+			for i, t := range trees {
+				if i == 1 || (i == 2 && n == 4) {
+					run(n, t, allSubsets(n))
+				} else {
+					var s []int
+					for j := 0; j < 3; j++ {
+						s = append(s, 1+r.Rand.Intn(1<<n-1))
+					}
+					run(n, t, s)
+				}
+			}
+			continue
+		}
+		for _, t := range trees {
+			run(n, t, allSubsets(n))
+		}
+	}
+	// larger page counts, random subsets
+	big := r.Pick(2, 40)
+	for i := 0; i < big; i++ {
+		n := 6 + r.Rand.Intn(7)
+		t := genTree(r.Rand, 0, n, 2+r.Rand.Intn(3))
+		var s []int
+		for j := 0; j < r.Pick(4, 10); j++ {
+			s = append(s, 1+r.Rand.Intn(1<<n-1))
+		}
+		run(n, t, s)
 	}
 }
